@@ -319,9 +319,6 @@ def same_label(a, b):
     return type(a) is type(b) and a == b
 
 
-_EXP_CACHE = {}
-
-
 def expected_table(doms, cells, labeling, cache=None):
     if cache is not None and labeling in cache:
         return cache[labeling]
